@@ -483,7 +483,7 @@ func (g *G) genC15(p *Plan) {
 var hostileKeys = []string{
 	"../bkt-bbb/victim", "a/../../bkt-bbb/victim", "../../metadata/bkt-bbb/x", "./victim", "a/./b", "a/../victim", "..", ".",
 	"a//b", "/lead", "a///b", ".hidden", "dir/.hidden", "back\\slash", "a\\..\\b", "pct%2Fenc", "pct%41", "%2e%2e/x",
-	"victim", "victim/child", "a", "a/b", "a/b/c", "dir", "dir/obj",
+	"victim", "victim/child", "a", "a/b", "a/b/c", "dir", "dir/obj", "a_b", "a-b", "dir_obj",
 	".modtime-resolution", "metadata", "buckets", "_meta", "bucket/bkt-aaa", "victim-" + "0000000000000000",
 	strings.Repeat("L", 255), strings.Repeat("M", 256), "seg/" + strings.Repeat("N", 300) + "/end",
 }
@@ -556,6 +556,33 @@ func (g *G) genC10(p *Plan) {
 		if c.Persistent() && g.chance(0.06) {
 			ops = append(ops, Op{K: "restart"})
 		}
+	}
+	if g.chance(0.35) {
+		// multipart upload ids are bound to (bucket, key): using one under
+		// another key or bucket must not touch the upload
+		b0 := c.Buckets[0]
+		other := c.Buckets[len(c.Buckets)-1]
+		mp := []Op{{K: "mpu-init", B: b0, Key: "victim"}, {K: "mpu-part", Up: 0, Part: 1, Body: g.body(9)}}
+		for i, n := 0, g.n(1, 4); i < n; i++ {
+			k := g.pick("dir/obj", "a/b", "victim2", "victi")
+			switch g.rng.Intn(4) {
+			case 0:
+				mp = append(mp, Op{K: "mpu-part", Up: 0, Part: g.n(1, 2), Body: g.body(7), Key: k})
+			case 1:
+				mp = append(mp, Op{K: "mpu-complete", Up: 0, Parts: []PartRef{{N: 1}}, Key: k})
+			case 2:
+				mp = append(mp, Op{K: "mpu-abort", Up: 0, Key: k})
+			default:
+				if other != b0 {
+					mp = append(mp, Op{K: "mpu-part", Up: 0, Part: 1, Body: g.body(7), B: other})
+				} else {
+					mp = append(mp, Op{K: "mpu-lsparts", Up: 0, Key: k})
+				}
+			}
+		}
+		mp = append(mp, Op{K: "mpu-lsparts", Up: 0}, Op{K: "mpu-complete", Up: 0, Parts: []PartRef{{N: 1}}})
+		at := g.n(0, len(ops))
+		ops = append(ops[:at:at], append(mp, ops[at:]...)...)
 	}
 	p.Clients = [][]Op{ops}
 	c.Policy = simrt.Policy{Kind: "seq"}
